@@ -71,6 +71,7 @@ type Net struct {
 	// Observers, called on the goroutine of the caller (the task).
 	OnLookup  func(host string, ips []net.IP, failed bool)
 	OnRequest func(nr *NetRequest, received bool)
+	OnDelay   func(d time.Duration) // called before a scripted delay / hang moves the clock
 }
 
 func NewNet(clock *Clock) *Net {
@@ -212,6 +213,9 @@ func (n *Net) RoundTrip(req *http.Request) (*http.Response, error) {
 	}
 
 	if act.Delay > 0 {
+		if n.OnDelay != nil {
+			n.OnDelay(act.Delay)
+		}
 		n.clock.Advance(act.Delay)
 	}
 	var resp *http.Response
